@@ -28,11 +28,12 @@ inductive Err
   | emptyData     -- np.concatenate([]) : ValueError (need at least one array)
   | shape         -- `f - b` : operands could not be broadcast together
   | index         -- `_estimated_var_sequence[0]` on an empty sequence : IndexError
+  | singular      -- `np.linalg.inv(A.T @ A)` raised LinAlgError (exactly singular matrix)
 deriving Repr, DecidableEq
 
 def Err.toString : Err → String
   | .notFullRank => "notFullRank" | .emptyData => "emptyData"
-  | .shape => "shape" | .index => "index"
+  | .shape => "shape" | .index => "index" | .singular => "singular"
 
 variable {K : Type} {m n : Nat}
 
@@ -72,6 +73,30 @@ def estSeq [Add K] [Mul K] [Sub K] [Zero K] (rank : Nat) (G : Mat K n n) (A : Ma
     (dss : List (List (Nat × List K))) : Except Err (List (Vec K n)) :=
   if !isFullRank m n rank then .error .notFullRank
   else dss.mapM (estData (aDdag G A) b)
+
+/-- `calc_estimate_sequence` with numpy's inverse as an outcome: `none` = `np.linalg.inv` raised `LinAlgError`.
+The inverse is computed once, after the guard and BEFORE the loop, so a singular `AᵀA` raises whatever the data
+(even for an empty sequence). -/
+def estSeqInv [Add K] [Mul K] [Sub K] [Zero K] (rank : Nat) (G? : Option (Mat K n n)) (A : Mat K m n)
+    (b : Vec K m) (dss : List (List (Nat × List K))) : Except Err (List (Vec K n)) :=
+  if !isFullRank m n rank then .error .notFullRank
+  else match G? with
+    | none => .error .singular
+    | some G => dss.mapM (estData (aDdag G A) b)
+
+/-- `G·(AᵀA) − 1` and `(AᵀA)·G − 1`: how far numpy's inverse is from the exact contract -/
+def invResidualLeft [Add K] [Mul K] [Sub K] [Zero K] [One K] (G : Mat K n n) (A : Mat K m n) : Mat K n n :=
+  (G.mul (A.transpose.mul A)).sub Mat.one
+def invResidualRight [Add K] [Mul K] [Sub K] [Zero K] [One K] (G : Mat K n n) (A : Mat K m n) : Mat K n n :=
+  ((A.transpose.mul A).mul G).sub Mat.one
+
+/-- `invCert G A δ`: every entry of both residuals lies in `[-δ, δ]` (evaluated exactly) -/
+def invCert [Add K] [Mul K] [Sub K] [Neg K] [Zero K] [One K] [LE K] [DecidableLE K]
+    (G : Mat K n n) (A : Mat K m n) (δ : K) : Bool :=
+  let L := invResidualLeft G A
+  let R := invResidualRight G A
+  (List.finRange n).all fun i => (List.finRange n).all fun j =>
+    decide (-δ ≤ L.get i j) && decide (L.get i j ≤ δ) && decide (-δ ≤ R.get i j) && decide (R.get i j ≤ δ)
 
 /-- `calc_estimate(...).estimated_var` = `calc_estimate_sequence(qt, [empi_dists]).estimated_var_sequence[0]` -/
 def estimate [Add K] [Mul K] [Sub K] [Zero K] (rank : Nat) (G : Mat K n n) (A : Mat K m n) (b : Vec K m)
@@ -254,6 +279,17 @@ def handle (args : List String) : Option String :=
       | .ok vs =>
         let objs := estimatedQoperationSeq kind flag r d2 mOut vs
         some ("ok " ++ (if objs.isEmpty then "_" else "|".intercalate (objs.map fun o => showList showRat o.flatten)))
+  -- numpy's inverse raised LinAlgError: estseqnone m n rank A b seq
+  | ["estseqnone", m, n, rank, A, b, seq] => do
+      let m ← parseNat? m; let n ← parseNat? n; let rank ← parseNat? rank
+      let A ← parseMat? m n A; let b ← parseVec? m b
+      let seq ← parseSeq? seq
+      some (showSeq (estSeqInv rank (none : Option (Mat Rat n n)) A b seq))
+  -- verified checker on numpy's inverse: invcert m n G A delta
+  | ["invcert", m, n, G, A, delta] => do
+      let m ← parseNat? m; let n ← parseNat? n
+      let G ← parseMat? n n G; let A ← parseMat? m n A; let delta ← parseRat? delta
+      some (toString (invCert G A delta))
   -- right-associated product on flat data vectors (large shapes)
   | ["estfast", m, n, G, A, b, fs] => do
       let m ← parseNat? m; let n ← parseNat? n
